@@ -96,7 +96,7 @@ import itertools
 ALLSHAPES = ["".join(t) for n in range(4) for t in itertools.product("mflo", repeat=n)]
 
 
-def matrix(rng, tier, mk_terms, add, nts=(2, 3, 4), nt1=False):
+def matrix(rng, tier, mk_terms, add, nts=(2, 3, 4), nt1=False, reps=1):
     """Systematic part of a profile (the rest is random): (a) every chain shape of length 0..3,
     (b) every kernel family x terminal constructor x chunk path (c = 1 / c > 1); thorough: the
     full product shape x terminal constructor x chunk path."""
@@ -109,36 +109,43 @@ def matrix(rng, tier, mk_terms, add, nts=(2, 3, 4), nt1=False):
         p["term"] = mk(rng, src, sh)
         add(norm(p), "rand" if not nt1 else "free")
     if tier == "quick":
-        for i, sh in enumerate(ALLSHAPES):
-            one(sh, mk_terms[i % len(mk_terms)], rng.choice([1, 2, 3]))
+        for rep in range(reps):
+            for i, sh in enumerate(ALLSHAPES):
+                one(sh, mk_terms[(i + rep) % len(mk_terms)], rng.choice([1, 2, 3]))
         fam = shapes_by_family(3)
         for f in sorted(fam):
             for mk in mk_terms:
                 for c in (1, rng.choice([2, 3])):
                     one(rng.choice(fam[f]), mk, c)
     else:
-        for sh in ALLSHAPES:
-            for mk in mk_terms:
-                for c in (1, rng.choice([2, 3, 5])):
-                    one(sh, mk, c)
+        for rep in range(reps):
+            for sh in ALLSHAPES:
+                for mk in mk_terms:
+                    for c in (1, rng.choice([2, 3, 5])):
+                        one(sh, mk, c)
 
 
 def big_jobs(rng, tier, mk_terms, add):
-    """Programs over 10^4..3*10^5 elements (digests instead of sequences): thresholds such as
-    2^16 / 2^17 elements and the growth of SplitVec fragments are only crossed here."""
-    sizes = [70000, 140000] if tier == "quick" else [20000, 66000, 70000, 132000, 140000, 300000]
+    """Programs over 7*10^4..3*10^5 elements (digests instead of sequences): thresholds such as
+    2^16 / 2^17 elements and the growth of SplitVec fragments are only crossed here. Systematic
+    over source class (known / unknown length) x pipeline class x terminal."""
+    sizes = [140000] if tier == "quick" else [66000, 140000, 300000]
+    srcs = ("iterx", "vec") if tier == "quick" else ("iterx", "vec", "iter", "range")
+    classes = ("m", "f") if tier == "quick" else ("m", "mm", "f", "o", "l", "mf")
     for n in sizes:
-        for mk in mk_terms:
-            src = rng.choice(("vec", "iterx", "iter", "range"))
-            sh = rng.choice(["m", "mm", "m", "f", "o", "l", "mf", "fm"] if src != "range" else ["m", "f", ""])
-            p = gen_prog(rng, src=src, shape=sh, n=8, nt=rng.choice([None, 4, 8]), cs=rng.choice([None, ("cs", 64), ("csmin", 16), ("cs", 1024)]))
-            if any(o["k"] == "flat" for o in p["ops"]):
-                for o in p["ops"]:
-                    if o["k"] == "flat":
-                        o["tt"] = [x[:2] for x in o["tt"]]
-            p["n"] = n
-            p["term"] = mk(rng, src, sh)
-            add(norm(p), "free", logcalls=0, timeout_ms=180000)
+        for src in srcs:
+            for sh in classes:
+                for mk in mk_terms:
+                    if src == "range" and len(sh) > 1:
+                        continue
+                    p = gen_prog(rng, src=src, shape=sh, n=8, nt=rng.choice([None, 4, 8]),
+                                 cs=rng.choice([None, ("cs", 64), ("csmin", 16), ("cs", 1024)]))
+                    for o in p["ops"]:
+                        if o["k"] == "flat":
+                            o["tt"] = [x[:2] for x in o["tt"]]
+                    p["n"] = n
+                    p["term"] = mk(rng, src, sh)
+                    add(norm(p), "free", logcalls=0, timeout_ms=180000)
 
 
 def jobs_for(prop, tier, seed):
@@ -150,13 +157,14 @@ def jobs_for(prop, tier, seed):
         jobs.append(mk_job(len(jobs) + 1, p, mode or mode_mix(rng), rng, **kw))
 
     if prop == "C01":
-        matrix(rng, tier, [lambda r, s_, sh: collect_term(r, s_, sh)], add)
+        matrix(rng, tier, [lambda r, s_, sh: collect_term(r, s_, sh)], add, reps=3)
         big_jobs(rng, tier, [lambda r, s_, sh: {"k": "collect_vec"}, lambda r, s_, sh: {"k": "collect"},
-                             lambda r, s_, sh: {"k": "collect_into", "tk": r.choice(["split", "vec", "fixed"])}], add)
+                             lambda r, s_, sh: {"k": "collect_into", "tk": "split"},
+                             lambda r, s_, sh: {"k": "collect_into", "tk": r.choice(["vec", "fixed"])}], add)
         for _ in range(n):
             add(with_term(rng, lambda r, s, sh: collect_term(r, s, sh)))
     elif prop == "C02":
-        matrix(rng, tier, [find_term], add)
+        matrix(rng, tier, [find_term], add, reps=2)
         for _ in range(n):
             add(with_term(rng, find_term, sizes=(0, 1, 2, 5, 8, 13, 24, 40, 64)))
     elif prop == "C03":
@@ -228,7 +236,7 @@ def jobs_for(prop, tier, seed):
                 want = [o for o in outs if (k == "first") or (k in ("find", "any") and p["term"]["t"][o[1]]) or (k == "all" and not p["term"]["t"][o[1]])]
                 if not want:
                     continue  # would legitimately never terminate
-                add(p, mode_mix(rng, 0.5), timeout_ms=60000)
+                add(p, mode_mix(rng, 0.5), timeout_ms=20000)
             else:
                 nn = rng.choice([24, 64, 120, 200])
                 p = with_term(rng, find_term, n=nn, sources=("vec", "iter", "iterx", "range", "slice"),
